@@ -451,7 +451,7 @@ func c17Embedded(r *rand.Rand, idx int, format int) Case {
 				// incl. a leaf replaced by a subtree (app.port.http over app.port) and a subtree by a leaf (db, app)
 				k := []string{"app.name", "app.port", "db.host", "db.user", "new.key.deep", "x", "app.port.http", "db", "app", "app.port.https.tls",
 					"app.rules[0].match", "app.rules[0].extra", "new.grp.items[0].id"}[r.Intn(13)] // (index 0 only: a null padding item has no spelling in properties text)
-				if r.Intn(3) == 0 {
+				if r.Intn(3) == 0 && !strings.Contains(k, "[") { // (an emptied list item, {} inside a list, has no spelling in properties text)
 					cb.RemoveAt(k)
 					edits = append(edits, "RemoveAt "+k)
 				} else {
